@@ -180,6 +180,129 @@ end
 def runObj (hooks : List (String × K)) (priv : K → Bool) (u : UnitT K V) (o : Obj K V) : Except K (Solved K V) :=
   run hooks priv u o.template
 
+/-! ### solving a unit AGAIN: `init_solve` on a unit that keeps the out profile of its previous solve
+
+`Unit.init_solve`: `if not self.out_profile: self.out_profile = self.OutProfile(self, in_profile)` — and, in the source
+form with an `else:` branch, the RE-USED out profile gets the current incoming state handed over: entries of it that are
+neither private, nor root hooks of the out profile, nor handed over now are deleted; every handed-over entry that is
+not a root hook, or is missing, is set.  WHICH entries are deleted / set is data read from the source on every run
+(`Gen.C06.reuseDelete`, `reuseSet`: literals over the atoms hidden / root / handed / present), bundled as `Reuse`;
+`Reuse.old` is the source form without the branch (the previous out profile is kept as it is). -/
+
+/-- what `init_solve` does with an out profile that exists already: `handsOver` = there is an `else:` branch;
+    `delete` = conjunction of literals (atom, polarity) selecting the entries of the out profile that are deleted;
+    `set` = disjunction of literals selecting the handed-over entries that are set -/
+structure Reuse where
+  handsOver : Bool
+  delete : List (String × Bool)
+  set : List (String × Bool)
+  deriving DecidableEq, Repr
+
+/-- the source form without `else:` branch -/
+def Reuse.old : Reuse := { handsOver := false, delete := [], set := [] }
+/-- the source form with the hand-over branch as the theorems of `PyrollProps/C06.lean` know it:
+    delete `not hidden and not root and not handed`; set `not root or not present` -/
+def Reuse.new : Reuse :=
+  { handsOver := true, delete := [("hidden", false), ("root", false), ("handed", false)],
+    set := [("root", false), ("present", false)] }
+
+/-- the atoms of the conditions: the name starts with the hidden prefix / is a root hook of the out profile / is among
+    the handed-over entries / is in the out profile's `__dict__` -/
+def atomEnv (hidden root handed present : Bool) (a : String) : Bool :=
+  if a = "hidden" then hidden else if a = "root" then root else if a = "handed" then handed
+  else if a = "present" then present else false
+
+def litsAll (env : String → Bool) (ls : List (String × Bool)) : Bool := ls.all fun l => env l.1 == l.2
+def litsAny (env : String → Bool) (ls : List (String × Bool)) : Bool := ls.any fun l => env l.1 == l.2
+
+/-- python `d.items()`: every name of the dict with the value `d[name]` -/
+def items (d : Dict K V) : Dict K V := d.map fun p => (p.1, (get d p.1).getD p.2)
+
+/-- `outdated = [k for k in out.__dict__ if <delete>]; for k in outdated: delattr(out, k)` -/
+def dropOutdated (pol : Reuse) (priv root : K → Bool) (handed out : Dict K V) : Dict K V :=
+  out.filter fun p => !litsAll (atomEnv (priv p.1) (root p.1) (get handed p.1).isSome true) pol.delete
+
+/-- `for k, v in handed.items(): if <set>: setattr(out, k, v)` -/
+def fill (pol : Reuse) (priv root : K → Bool) : Dict K V → Dict K V → Dict K V
+  | [], out => out
+  | (k, v) :: r, out =>
+    fill pol priv root r
+      (if litsAny (atomEnv (priv k) (root k) true (get out k).isSome) pol.set then set out k v else out)
+
+/-- the `else:` branch -/
+def handOver (pol : Reuse) (priv root : K → Bool) (out handed : Dict K V) : Dict K V :=
+  fill pol priv root (items handed) (dropOutdated pol priv root handed out)
+
+/-- the `__dict__` of `self.out_profile` after `init_solve`: `prev` = the out profile the unit has kept (`none`: never
+    solved), `P1` = the incoming profile after the pre-processors, `root` = "is a root hook of this out profile" -/
+def initOut (pol : Reuse) (priv root : K → Bool) (prev : Option (Dict K V)) (P1 : Dict K V) : Dict K V :=
+  match prev with
+  | none => pub priv P1
+  | some out => if pol.handsOver then handOver pol priv root out (pub priv P1) else out
+
+/-- what a unit tree keeps from one `solve` to the next: per unit the `__dict__` of its out profile (`none` before
+    the first solve) and the same of its sub-units (disk elements are created once).  In profiles are built anew by
+    every `init_solve`; pre- and post-processors are made by their factories on every call (the entry rotator of a
+    roll pass is local to `init_solve`). -/
+inductive Mem (K V : Type) where
+  | mk (out : Option (Dict K V)) (subs : List (Mem K V)) : Mem K V
+
+namespace Mem
+def out : Mem K V → Option (Dict K V) | .mk o _ => o
+def subs : Mem K V → List (Mem K V) | .mk _ s => s
+/-- a unit that has not been solved yet -/
+def fresh : Mem K V := .mk none []
+end Mem
+
+mutual
+/-- `u.solve(P)` on a unit with history `m`: as `run`, but the out profile starts from `initOut`; returns also what
+    the unit keeps for the next solve -/
+def runM (pol : Reuse) (hooks : List (String × K)) (priv : K → Bool) :
+    UnitT K V → Mem K V → Dict K V → Except K (Solved K V × Mem K V)
+  | .mk io oo ii oi idf pre post subs, m, P =>
+    match runList hooks priv pre P with
+    | .error e => .error e
+    | .ok rpre =>
+      let P1 := lastRet P rpre
+      match evalSet io ii noFallback hooks (pub priv P1) with
+      | .error e => .error e
+      | .ok inP =>
+        match runListM pol hooks priv subs m.subs inP with
+        | .error e => .error e
+        | .ok (rs, ms) =>
+          match evalSet oo oi (outFallback rs inP idf) hooks (initOut pol priv (applies oo hooks) m.out P1) with
+          | .error e => .error e
+          | .ok outP =>
+            match runList hooks priv post (pub priv outP) with
+            | .error e => .error e
+            | .ok rpost =>
+              .ok ({ received := P1, inP := inP, outP := outP, ret := lastRet (pub priv outP) rpost,
+                     trace := (rpre.flatMap (·.trace)) ++ (inP, outP) :: (rs.flatMap (·.trace)) ++ (rpost.flatMap (·.trace)) },
+                   .mk (some outP) ms)
+/-- `last = P; for u in us: last = u.solve(last)` on units with histories `ms` (a missing history = never solved) -/
+def runListM (pol : Reuse) (hooks : List (String × K)) (priv : K → Bool) :
+    List (UnitT K V) → List (Mem K V) → Dict K V → Except K (List (Solved K V) × List (Mem K V))
+  | [], _, _ => .ok ([], [])
+  | u :: us, ms, P =>
+    match runM pol hooks priv u (ms.headD .fresh) P with
+    | .error e => .error e
+    | .ok (r, m) =>
+      match runListM pol hooks priv us ms.tail r.ret with
+      | .error e => .error e
+      | .ok (rs, ms') => .ok (r :: rs, m :: ms')
+end
+
+/-- two solves of the same unit object: first `u₁` (the unit with what its implementations returned in the first
+    solve) on `o₁` without history, then `u₂` on `o₂` with what the first solve left -/
+def solveTwice (pol : Reuse) (hooks : List (String × K)) (priv : K → Bool) (u₁ : UnitT K V) (o₁ : Obj K V)
+    (u₂ : UnitT K V) (o₂ : Obj K V) : Except K (Solved K V × Solved K V) :=
+  match runM pol hooks priv u₁ .fresh o₁.template with
+  | .error e => .error e
+  | .ok (r₁, m) =>
+    match runM pol hooks priv u₂ m o₂.template with
+    | .error e => .error e
+    | .ok (r₂, _) => .ok (r₁, r₂)
+
 /-! ### the shape of the source the definitions above mirror (compared with `Gen.C06.*` by `C06.skeleton_certificate`) -/
 
 def expectedProfileInit : String × String × List String := ("template.__dict__", "_", ["super().__init__(**COPY)"])
@@ -191,6 +314,13 @@ def expectedInitSolve : List String :=
   ["pre_processor = factory(self)", "in_profile = pre_processor.solve(in_profile)",
    "self.in_profile = self.InProfile(self, in_profile)",
    "if not self.out_profile: self.out_profile = self.OutProfile(self, in_profile)"]
+/-- the `else:` branch of the out profile guard (`Gen.C06.reuse…`): which names are root hooks there / what is handed
+    over (source dict, hidden prefix) / what is iterated and done in the two loops -/
+def expectedReuseRoots : String × String × String :=
+  ("HOOK.name", "root_hooks", "isinstance(self.out_profile, HOOK.owner)")
+def expectedReuseHanded : String × String := ("in_profile.__dict__", "_")
+def expectedReuseDelete : String × String := ("self.out_profile.__dict__", "delattr(self.out_profile, k)")
+def expectedReuseSet : String × String := ("HANDED.items()", "setattr(self.out_profile, k, v)")
 def expectedRootResults : List String :=
   ["in_profile_results = self.in_profile.evaluate_and_set_hooks()",
    "out_profile_results = self.out_profile.evaluate_and_set_hooks()",
